@@ -95,6 +95,13 @@ func fileClass(path string) string {
 	return "dir-or-other"
 }
 
+func pathBase(path string) string {
+	if i := strings.LastIndexByte(path, '/'); i >= 0 {
+		return path[i+1:]
+	}
+	return path
+}
+
 func isMutation(k errorfs.OpKind) bool {
 	switch k {
 	case errorfs.OpCreate, errorfs.OpLink, errorfs.OpRemove, errorfs.OpRemoveAll, errorfs.OpRename, errorfs.OpReuseForWrite,
@@ -123,7 +130,10 @@ func (c *crasher) inject(op errorfs.Op) error {
 		return nil
 	}
 	if op.Kind == errorfs.OpCreate && c.faultCountdown.Load() > 0 {
-		if cls, _ := c.faultClass.Load().(string); cls == fileClass(op.Path) {
+		// the class may be narrowed to a file-name prefix ("marker.format-version"):
+		// a background MANIFEST rotation creates a marker file too, and failing
+		// that one is a fatal error by design, not the fault that was asked for
+		if cls, _ := c.faultClass.Load().(string); cls == fileClass(op.Path) || (strings.Contains(cls, ".") && strings.HasPrefix(pathBase(op.Path), cls)) {
 			if c.faultCountdown.Add(-1) == 0 {
 				c.faultFired.Store(true)
 				return errorfs.ErrInjected
